@@ -35,6 +35,16 @@ var VerifDir = "/verif"
 // RepoDir is the repository under test (informational; the build decides).
 var RepoDir = "/repo"
 
+// outDir returns where evidence/replay files go: under VerifDir, or under
+// VERIF_SCRATCH_OUT when the run is against a scratch copy of the repository
+// (so that committed evidence always comes from /repo itself).
+func outDir(kind string) string {
+	if d := os.Getenv("VERIF_SCRATCH_OUT"); d != "" {
+		return filepath.Join(d, kind)
+	}
+	return filepath.Join(VerifDir, kind)
+}
+
 // ---------------------------------------------------------------------------
 // Compile wrapper
 
@@ -413,9 +423,9 @@ func (c *Ctx) Finish(rule string, minNontrivial int, assumptions []string) int {
 	// replay files
 	var replayPaths []string
 	if len(c.violations) > 0 && c.OnlySub == "" {
-		os.MkdirAll(filepath.Join(VerifDir, "replays"), 0o755)
+		os.MkdirAll(outDir("replays"), 0o755)
 		for i, v := range c.violations {
-			p := filepath.Join(VerifDir, "replays", fmt.Sprintf("%s-%s-%d-%d.json", c.Prop, c.Tier, c.Seed, i))
+			p := filepath.Join(outDir("replays"), fmt.Sprintf("%s-%s-%d-%d.json", c.Prop, c.Tier, c.Seed, i))
 			b, _ := json.MarshalIndent(v, "", " ")
 			os.WriteFile(p, b, 0o644)
 			replayPaths = append(replayPaths, p)
@@ -507,8 +517,8 @@ func (c *Ctx) Finish(rule string, minNontrivial int, assumptions []string) int {
 		"violations":  len(c.violations),
 	}
 	b, _ := json.MarshalIndent(ev, "", " ")
-	os.MkdirAll(filepath.Join(VerifDir, "evidence"), 0o755)
-	if err := os.WriteFile(filepath.Join(VerifDir, "evidence", c.Prop+".json"), b, 0o644); err != nil {
+	os.MkdirAll(outDir("evidence"), 0o755)
+	if err := os.WriteFile(filepath.Join(outDir("evidence"), c.Prop+".json"), b, 0o644); err != nil {
 		fmt.Printf("INCONCLUSIVE property=%s reason=cannot write evidence: %v\n", c.Prop, err)
 		if status == 0 {
 			status = 2
